@@ -379,6 +379,11 @@ func (e *Engine) runOverlayTest(pkgDir string, files map[string]string, runPat s
 	cmd := exec.Command("go", args...)
 	cmd.Dir = e.repo
 	cmd.Env = goEnv()
+	for _, k := range []string{"VERIF_HEIGHTS", "VERIF_SEED"} {
+		if v := os.Getenv(k); v != "" {
+			cmd.Env = append(cmd.Env, k+"="+v)
+		}
+	}
 	out, err := cmd.CombinedOutput()
 	return string(out), err
 }
@@ -412,7 +417,7 @@ func (e *Engine) contractEffects(keys []string) []ExtraResult {
 		if con == nil || con.External || e.funcs[k] == nil {
 			continue
 		}
-		if con.Pure || (con.Trusted != "" && len(con.Assigns) > 0) {
+		if con.Pure || (con.Trusted != "" && len(con.Assigns) > 0) || len(con.Reads) > 0 {
 			need = append(need, k)
 		}
 	}
@@ -425,6 +430,9 @@ func (e *Engine) contractEffects(keys []string) []ExtraResult {
 		con := e.cs.Funcs[k]
 		if con.Pure {
 			obs = append(obs, ef.obPure(k))
+		}
+		for pn, rd := range con.Reads {
+			obs = append(obs, ef.obReadsOnly(k, pn, rd[0], rd[1]))
 		}
 		names := paramNames(e.funcs[k], con, e.funcs[k].Obj)
 		allowed := map[int]bool{}
